@@ -184,6 +184,21 @@ def oracle_model(getter, rng, tier_quick, notes):
         return ({"clause": "empirical-cdf", "getter": getter}, "empirical_cdf differs from the manual count")
     # ... for samples of any length (also long ones whose length is no round number)
     jref = [joint_cdf_reference(tm, base, q) for q in pts]
+    # the model's own cdf (numerical integration of its density, a minute per point) equals the empirical cdf of its own samples within
+    # Monte-Carlo error: judged against the exact value that empirical cdf estimates, with the band of a sample of 1e6 rows
+    cdf_pts = [np.array([2.0, 6.0])] if tier_quick else [np.array([2.0, 6.0]), np.array([1.0, 4.5]), np.array([4.0, 7.0])]
+    if not tier_quick or getter == GETTERS[0]:
+        for q in cdf_pts:
+            r_ = joint_cdf_reference(tm, base, q)
+            if r_ is None:
+                continue
+            with warnings.catch_warnings():
+                warnings.simplefilter("ignore")
+                got_c = float(np.ravel(tm.cdf(np.array([q])))[0])
+            notes.setdefault("cdf_vs_exact", []).append([round(got_c, 6), round(r_, 6)])
+            if abs(got_c - r_) > math.sqrt(math.log(2 / 1e-12) / (2 * 10 ** 6)):
+                return ({"clause": "cdf", "getter": getter},
+                        "TransformedModel.cdf([%.6g, %.6g]) = %.6f, the probability of [0, %.6g] x [0, %.6g] under the push-forward density is %.6f" % (q[0], q[1], got_c, q[0], q[1], r_))
     for nbig, sd in ((100000, 5), (150001, 0), (250000, "gen5")):
         rs = np.random.default_rng(5) if sd == "gen5" else sd
         sb = tm.draw_sample(nbig, random_state=rs)
@@ -237,12 +252,12 @@ def oracle_model(getter, rng, tier_quick, notes):
             warnings.simplefilter("ignore")
             try:
                 smp = tm.conditional_sample(n, cdim, hs, random_state=7)
-            except Exception as e:  # noqa
-                notes["unjudgeable_conditional"] = notes.get("unjudgeable_conditional", 0) + 1
-                continue
-        if len(smp) < n:
-            notes["unjudgeable_conditional"] = notes.get("unjudgeable_conditional", 0) + 1
-            continue
+            except Exception as e:  # noqa  (never seen on the unchanged tree, quick or thorough: a failure here is a finding)
+                return ({"clause": "conditional-sample-exception", "getter": getter, "dim": cdim},
+                        "conditional_sample(%d, %d, %r, random_state=7) raised %s: %s" % (n, cdim, hs, type(e).__name__, str(e)[:150]))
+        if len(smp) != n:
+            return ({"clause": "conditional-sample-size", "getter": getter, "dim": cdim},
+                    "conditional_sample(%d, %d, %r) returned %d values" % (n, cdim, hs, len(smp)))
         ref = ref_cdf(tm, cdim, hs)
         if ref is None:
             continue
